@@ -155,38 +155,3 @@ CFG = {
         "technique": "Lean 4 proof (step invariants + termination measure over all schedules) + refutation witnesses + differential correspondence",
     },
 }
-
-
-def _merge_proposed_known(core):
-    """known_findings.txt is owned by the lead; until the proposed C07 `known:` lines (props/C07.known, same format) are
-    moved there they are read from here as well.  Nothing is written."""
-    import os
-    import re
-    if getattr(core, "_c07_known_merged", False):
-        return
-    orig = core.load_known
-
-    def load_known(pid):
-        known, fixed = orig(pid)
-        path = os.path.join(core.VERIF, "props", "C07.known")
-        if pid == "C07" and os.path.exists(path):
-            for line in open(path):
-                m = re.match(r"known:\s+property=(\S+)\s+class=(\S+)\s+(.*)", line.strip())
-                if m and m.group(1) == pid:
-                    known.setdefault(m.group(2), m.group(3))
-        return known, fixed
-
-    core.load_known = load_known
-    core._c07_known_merged = True
-
-
-def replay(path):
-    from vlib import core
-    _merge_proposed_known(core)
-    return core.replay(CFG, path)
-
-
-def run(tier, seed):
-    from vlib import core
-    _merge_proposed_known(core)
-    return core.run_check(CFG, tier, seed)
